@@ -38,7 +38,7 @@ def payload_key(label):
 
 
 def aligned(p):
-    return "Capability::Reserved" not in p.label and "DownlinkRequest::Unknown" not in p.label
+    return "Capability::Reserved" not in p.label
 
 
 def dispatch_rule(rep, prog, oks):
